@@ -10,7 +10,11 @@ EXPLANATION = ("static analysis: to_directed and the plain branch of to_undirect
                "graph and node attributes, outside any try, without writing the source; the reciprocal branch is "
                "interpreted with two timelines (u->v and v->u, 1..2 intervals each) using interval-set values for "
                "set(range(..)) / & / sorted / len, over every order type of the four to six interval ends: the spans "
-               "re-added must be exactly the non-empty intersections, in increasing order; its handler must be narrow")
+               "re-added must be exactly the non-empty intersections, in increasing order; its handler must be narrow; finally "
+               "all three conversions are interpreted on 4-node symbolic graphs with concrete canonical timelines over "
+               "t+1..t+3 (both directions of a reciprocal pair varied exhaustively) and the presence relation of the "
+               "recorded result (calls replayed by the specification of add_interaction) is compared pair by pair and "
+               "instant by instant with union / intersection / both-directions")
 
 
 def run(repo: Repo, tier, rep: Report):
@@ -30,5 +34,10 @@ def run(repo: Repo, tier, rep: Report):
     check_purity(repo, addp, only={"to_directed", "to_undirected"})
     from sa.query_check import check_enumeration_dependency
     check_enumeration_dependency(repo, rep, common.enumeration_users(repo, ['to_directed', 'to_undirected']))
+    from sa.conv_graph import check_conversions_on_graphs
+    n = check_conversions_on_graphs(repo, rep, tier)
+    rep.floor("graph-level conversion runs", n, 300)
     rep.assume(*common.CTOR_ASSUMPTIONS)
+    rep.assume("graph level: 4-node shapes (reciprocal A<->B, B->C, C->A, isolated D; path A-B-C + D), instants t+1..t+3 plus two "
+               "sentinel instants; the recorded calls are replayed by the specification of add_interaction (C01), not by its code")
     rep.assume("reciprocal branch: timelines of 1..2 intervals per direction (thorough: 2x2); nodes are comparable (u >= v)")
